@@ -187,6 +187,26 @@ let () = iter_lines (fun line ->
       let kinds = Stdlib.List.filter (fun x -> x <> "") (Stdlib.List.rev_map (function EvC _ -> "C" | EvM _ -> "M" | EvX _ -> "X" | EvF -> "F" | _ -> "") s'.trace) in
       let vals = Stdlib.List.sort compare (Stdlib.List.concat (Stdlib.List.init cap (fun i -> match s'.hp.mem (loc 1 i) with Live v -> [n2i v] | _ -> []))) in
       Printf.printf "cnt=%d %s | %s | %s\n" (n2i (s'.hp.regs (i2n 11))) out (String.concat " " kinds) (String.concat " " (Stdlib.List.map string_of_int vals))
+    | "genn1" :: _ :: _ :: _ :: op :: f :: hash :: index :: _ :: _ :: bytes ->
+      (* translator validation: the GENERATED BucketOpenN1<3, reverse>::AddCrt / Remove on the given bytes *)
+      let by = Array.of_list (Stdlib.List.map int_of_string bytes) in
+      let rev = Array.length by > 4 && by.(4) <> 0 in
+      let m = (fun i -> let i = int_of_z i in if i >= 0 && i < 4 then z_of_int by.(i) else z_of_int 0) in
+      let r = if op = "add" then Gen_OpenN1_exn.coq_AddCrt rev (z_of_int 3) m (f = "1") (z_of_string hash) (z_of_int 0)
+              else Gen_OpenN1_exn.coq_Remove rev (z_of_int 3) m (f = "1") (z_of_string index) in
+      (match r with
+       | GenPrelude.Ok (c, m') -> Printf.printf "%d %s\n" (if c then 1 else 0) (String.concat " " (Stdlib.List.init 4 (fun i -> string_of_z (m' (z_of_int i)))))
+       | GenPrelude.Stuck -> print_endline "Stuck" | GenPrelude.Fuel -> print_endline "Fuel" | GenPrelude.Exn -> print_endline "Exn")
+    | "geno2" :: _ :: _ :: _ :: op :: f :: hash :: index :: logbc :: probe :: bytes ->
+      let by = Array.of_list (Stdlib.List.map int_of_string bytes) in
+      let arr off n = (fun i -> let i = int_of_z i in if i >= 0 && i < n then z_of_int by.(off + i) else z_of_int 0) in
+      let r = if op = "add" then Gen_Open2N2_exn.coq_AddCrt (arr 0 2) (arr 2 3) (arr 5 3) (f = "1") (z_of_string hash) (z_of_string logbc) (z_of_string probe) (z_of_int 0)
+              else Gen_Open2N2_exn.coq_Remove (arr 0 2) (arr 2 3) (arr 5 3) (f = "1") (z_of_string index) in
+      (match r with
+       | GenPrelude.Ok (((c, st), sh), hp) ->
+         Printf.printf "%d %s %s %s\n" (if c then 1 else 0) (String.concat " " (Stdlib.List.init 2 (fun i -> string_of_z (st (z_of_int i)))))
+           (String.concat " " (Stdlib.List.init 3 (fun i -> string_of_z (sh (z_of_int i))))) (String.concat " " (Stdlib.List.init 3 (fun i -> string_of_z (hp (z_of_int i)))))
+       | GenPrelude.Stuck -> print_endline "Stuck" | GenPrelude.Fuel -> print_endline "Fuel" | GenPrelude.Exn -> print_endline "Exn")
     | ["noderemove"; _; n; k; index] ->
       let n = int_of_string n and k = int_of_string k and index = int_of_string index in
       let cap = if n <= 2 then 2 else 4 in
